@@ -49,3 +49,18 @@ Proof.
   - repeat (constructor; [cbn; intuition discriminate|]). constructor.
   - repeat constructor.
 Qed.
+
+(* ---- mock engine constants and predicates as they stand in src/mocks.c ---- *)
+Lemma unlimited_pos : 0 < unlimited_ttl.
+Proof. reflexivity. Qed.
+
+Lemma is_always_src_ok ttl : is_always_src ttl unlimited_ttl = (ttl =? unlimited_ttl).
+Proof. reflexivity. Qed.
+Lemma is_never_src_ok ttl : is_never_src ttl unlimited_ttl = (ttl =? - unlimited_ttl).
+Proof. reflexivity. Qed.
+Lemma ttl_sources_ok :
+  ttl_expect_default unlimited_ttl = 1 /\ ttl_always unlimited_ttl = unlimited_ttl /\
+  ttl_never unlimited_ttl = - unlimited_ttl.
+Proof. repeat split. Qed.
+Lemma vector_step_pos : 0 < vector_step.
+Proof. reflexivity. Qed.
